@@ -261,20 +261,57 @@ class GeminiServerProtocol(asyncio.Protocol):
             duration_ms=round(duration_ms, 2),
         )
 
-        # Build response header: <STATUS><SPACE><META><CRLF>
-        header = f"{response.status} {response.meta}\r\n"
-        self.transport.write(header.encode("utf-8"))
+        # Encode the whole response before writing anything, so that a response
+        # that cannot be sent never leaves a half-written one on the wire
+        try:
+            header, body = self._encode_response(response)
+        except Exception as e:
+            logger.error(
+                "invalid_response",
+                client_ip=self.peer_name[0] if self.peer_name else "unknown",
+                error=str(e),
+                exception_type=type(e).__name__,
+            )
+            header = f"{StatusCode.TEMPORARY_FAILURE.value} Server error\r\n".encode()
+            body = b""
 
-        # Send body if present (only for 2x success responses)
-        # FIX: Handle both text (str) and binary (bytes) content
-        if response.body:
-            if isinstance(response.body, bytes):
-                self.transport.write(response.body)
-            else:
-                self.transport.write(response.body.encode("utf-8"))
+        self.transport.write(header)
+        if body:
+            self.transport.write(body)
 
         # Close connection (Gemini/Titan: one request per connection)
         self.transport.close()
+
+    @staticmethod
+    def _encode_response(response: GeminiResponse) -> tuple[bytes, bytes]:
+        """Encode a response as (header, body) bytes.
+
+        The header is <STATUS><SPACE><META><CRLF>: a two-digit status, and a
+        meta kept on one line and within 1024 bytes. A body is only sent with
+        2x success responses.
+
+        Raises:
+            ValueError: If the status is not a valid Gemini status code.
+            UnicodeEncodeError: If meta or body cannot be encoded as UTF-8.
+        """
+        status = int(response.status)
+        if not 10 <= status <= 69:
+            raise ValueError(f"Invalid status code: {status}")
+
+        meta = str(response.meta).replace("\r", " ").replace("\n", " ")
+        meta_bytes = meta.encode("utf-8")
+        if len(meta_bytes) > 1024:
+            meta_bytes = meta_bytes[:1024].decode("utf-8", "ignore").encode("utf-8")
+        header = str(status).encode("ascii") + b" " + meta_bytes + CRLF
+
+        body = b""
+        if response.body and 20 <= status <= 29:
+            if isinstance(response.body, bytes):
+                body = response.body
+            else:
+                body = response.body.encode("utf-8")
+
+        return header, body
 
     def _send_error_response(self, status: StatusCode, message: str) -> None:
         """Send an error response and close the connection.
@@ -432,6 +469,11 @@ class GeminiServerProtocol(asyncio.Protocol):
                 if self.transport and error_response:
                     self.transport.write(error_response.encode("utf-8"))
                     self.transport.close()
+                else:
+                    # Rejected without a response text: never leave the client unanswered
+                    self._send_error_response(
+                        StatusCode.TEMPORARY_FAILURE, "Request rejected"
+                    )
                 return
 
             # Middleware allowed request - continue routing
